@@ -47,6 +47,7 @@ CORNER_STATEMENTS = [
     "@print " + "(" * 16 + "1" + ")" * 16, "@print " + "{" * 12 + "1" + "}" * 12, "@print " + "!" * 16 + "true", "@print " + "-(" * 15 + "1" + ")" * 15,
     "@print 1" + " + 1" * 200, "@print '" + "a" * 1500 + "'", "uint8 " + "a" * 300, "uint8 _a_", "uint8 uint8", "uint8 optional", "uint8 CON",
     "uint8 a\nuint8 a", "uint8 a\nuint8 A", "uint8 X = 1\nuint8 X = 1", "uint8 X = X", "uint8 X = Y", "uint8 X = _offset_",
+    "uint8 only_field_no_mode", "@union\nuint8 single_variant\n@sealed", "uint8 dup1\nuint16 dup1\n@sealed", "@extent 8\nuint64 too_big",
     "---", "---\n---", "@union", "@union\n@union", "@union\nuint8 a", "@deprecated\n@deprecated", "uint8 a\n@union", "@sealed\n@sealed",
     "@sealed\n@extent 64", "@extent 64\nuint8 a", "﻿@print 1", "\x00", "\x0c", "\x0b@print 1", "@print 1\x00", "@print 1", "@print 1",
     "@print 1 # \x00 ퟿", "# \U0001F600", "@print '\t'", "@print 'a\nb' == 'a\\nb'", "@print \"a\nb\"", "@print 'unterminated", "@print '\\'",
